@@ -1,7 +1,7 @@
 SPECIFICATION Spec
 CONSTANTS
   Emit = FALSE
-  Queries = {"print", "screen", "all", "PRINT", "not print", "screen and (min-width: 400px) and (color)", "(max-width: 20em)"}
+  Queries = {"print", "screen", "all", "PRINT", "not print", "screen and (min-width: 400px) and (color)", "(max-width: 20em) and (min-width: 10px) and (color)"}
   TextTypes = {"print", "screen", "PRINT"}
   MaxLen = 3
   MaxHist = 4
